@@ -314,7 +314,9 @@ func flushBuf(pos int, obuf []byte, normalizeWord bool, ld *dictionary) tokenID 
 func cleanupToken(pos int, in string, normalizeWord bool) string {
 	r, _ := utf8.DecodeRuneInString(in)
 	var out strings.Builder
-	if pos == 0 && header(in) {
+	// header() knows list markers in lower case; the first rune keeps its case
+	// when the word is not normalized.
+	if pos == 0 && header(strings.ToLower(in)) {
 		return ""
 	}
 
